@@ -486,13 +486,20 @@ func TestC16(t *testing.T) {
 	})
 	r.Sample(map[string]any{"kind": "partial-write", "plaintext_len": 5, "writer_accepts": []int{17, 3}})
 
+	// ---------------- writers: writes of more than one record
+	mc, mn := multiRecordWrites(r, r.Thorough())
+	evals += mc
+	nontrivial += mn
+	r.Set("multi_record_write_scripts", mc)
+	r.Sample(map[string]any{"kind": "multi-record-write", "write_len": 65575, "timeouts_at_wire_offsets": []int{65569 + 18 + 20}})
+
 	r.Set("evaluations", evals)
 	r.Set("distinct_nontrivial", nontrivial)
 	r.Set("outcome_classes", classes)
 	r.Set("handshake_fragmentations", len(hjobs))
 	r.Set("record_fragmentations", len(rjobs))
 	r.Set("partial_write_scripts", len(wjobs))
-	r.Set("rule", "handshakes (XX v0, XX v2, KK) with the last act delivered coalesced with the following record (0/5/300 bytes), with every uniform maximal read size 1..longest act, every two-way cut of every act and every three-way cut (all pairs for acts <= 120 bytes, pairs of field-boundary offsets and every 37th offset for longer ones); records of 0,1,5,100 bytes read under every uniform read size and every two-way (three-way for <= 5 bytes) cut; every two- and three-way partition of the wire bytes of records of 0,1,5,40 bytes into partial writes separated by timeout errors, with Flush repeated and WriteMessage attempted in between. distinct_nontrivial = fragmented cases that behaved identically to the unfragmented run")
+	r.Set("rule", "handshakes (XX v0, XX v2, KK) with the last act delivered coalesced with the following record (0/5/300 bytes), with every uniform maximal read size 1..longest act, every two-way cut of every act and every three-way cut (all pairs for acts <= 120 bytes, pairs of field-boundary offsets and every 37th offset for longer ones); records of 0,1,5,100 bytes read under every uniform read size and every two-way (three-way for <= 5 bytes) cut; every two- and three-way partition of the wire bytes of records of 0,1,5,40 bytes into partial writes separated by timeout errors, with Flush repeated and WriteMessage attempted in between; NoiseConn.Write of 65536 / 65575 (thorough also 131070 / 131077) bytes with the transport timing out at one or two of ten offsets per record (start, inside and end of header, body, MAC), the caller repeating Flush and continuing at the reported offset: the reported counts add up to the length and the peer decrypts exactly what was written. distinct_nontrivial = fragmented cases that behaved identically to the unfragmented run")
 	r.Set("exhaustive", true)
 	exitCode = r.Finish()
 }
